@@ -183,9 +183,11 @@ func reconstructAliasedMap(node *CandidateNode, context Context) error {
 		} else {
 			if valueNode.Kind == SequenceNode {
 				log.Debugf("an alias merge list!")
-				for index := len(valueNode.Content) - 1; index >= 0; index = index - 1 {
-					aliasNode := valueNode.Content[index]
-					err := applyAlias(node, aliasNode.Alias, index, context.ChildContext(newContent))
+				for listIndex := len(valueNode.Content) - 1; listIndex >= 0; listIndex = listIndex - 1 {
+					aliasNode := valueNode.Content[listIndex]
+					// (not listIndex: that made overrideEntry compare merged key names with whatever sits at
+					// position listIndex+2.. of this map, values included, and drop keys that happened to match)
+					err := applyAlias(node, aliasNode.Alias, len(node.Content), context.ChildContext(newContent))
 					if err != nil {
 						return err
 					}
